@@ -7,10 +7,10 @@ import sys
 
 REPO = os.environ.get('PYVC_REPO', '/repo')
 
-GOOD = ['a = 1\n', 'def f(n: int) -> int:\n\treturn n + 1\n', 'class A:\n\tdef m(self) -> str:\n\t\treturn "s"\n', 'x: int = 1\ny = x\n', 'c: int = 2\n']
+GOOD = ['a = 1\n', 'def f(n: int) -> int:\n\treturn n + 1\n', 'class A:\n\tdef m(self) -> str:\n\t\treturn "s"\n', 'x: int = 1\ny = x\n', 'c: int = 2\n', 'class A:\n\tn: int\n', 'class P:\n\tn: int\n\ts: str\n\n\tdef m(self) -> int:\n\t\treturn self.n\n']
 # accepted by the grammar, refused later (unknown names, missing annotations, literals no node class matches)
 ILL = ['b: int = 1\na: Foo = 1\n', 'def f(a) -> None: ...\n', 'a = 0b101\n', 'a = 0o17\n', 'a = 1j\n', 'x = undefined_name\n', 'from no.such.module import q\n', 'class B(NoBase): ...\n',
-	'def g() -> int:\n\treturn h()\n', 'a = 1\na: str = 2\nb = a.nope\n']
+	'def g() -> int:\n\treturn h()\n', 'a = 1\na: str = 2\nb = a.nope\n', 'class A: ...\nx: A.B = 1\n', 'def f(a: int.foo) -> None: ...\n', 'class A:\n\tclass B: ...\ny: A.C = 1\n']
 BAD = ['def f(:\n\tpass\n', 'x = (1\n', 'if a:\nb = 1\n', 'x = "unterminated\n']
 
 
@@ -28,8 +28,13 @@ def run(tier: str, seed: int = 0):
 		for h in range(n_hist):
 			fx = Fixture.make(f'{REPO}/tests/unit/rogw/tranp/semantics/test_reflections.py')
 			hist = []
-			for step in range(rnd.randint(3, 6)):
-				src = rnd.choice(ILL if rnd.random() < 0.5 else (GOOD if rnd.random() < 0.7 else BAD))
+			sweep = None
+			if h == 0:
+				# the first session goes through every input once (shuffled): each input class is exercised on every run
+				sweep = GOOD + ILL + BAD
+				rnd.shuffle(sweep)
+			for step in range(len(sweep) if sweep else rnd.randint(3, 6)):
+				src = sweep[step] if sweep else rnd.choice(ILL if rnd.random() < 0.5 else (GOOD if rnd.random() < 0.7 else BAD))
 				hist.append(src)
 				n += 1
 				try:
